@@ -122,7 +122,56 @@ def d2_enqueue(facts, rep):
             all(every_path_passes(fn, 'entry', lambda p, e: p in set(a[0] for a in adv), end=o[0])[0] for o in otl)
         rep.ob('D2', 'K4', fn, 'arena reference -> push -> advertise -> drop reference, in this order', ok3,
                'the arena can be destroyed between the push and the wake-up, or the wake-up precedes the push')
+    d2_resume_is_starvation_resistant(facts, rep)
     rep.floor('D2', 3, 'resume enqueue')
+
+
+def d2_resume_is_starvation_resistant(facts, rep, clause='D2'):
+    """"never forgotten": a resume task sits in the arena's resume stream; only a thread INSIDE the arena takes it from there.
+    The arena may be empty at that moment (every thread left while the task was suspended), and with a worker soft limit of 0
+    (max_allowed_parallelism == 1) an arena gets its single worker only while "mandatory concurrency" is switched on.  So:
+    (a) r1::resume advertises the pushed task with a work type whose instantiation of arena::advertise_new_work can switch
+        mandatory concurrency on (read from the bodies of the instantiations: the one that reaches
+        my_mandatory_concurrency.test_and_set()), not with one that only wakes sleeping threads;
+    (b) the predicate under which out_of_work switches mandatory concurrency off again looks at the resume stream as well -
+        otherwise the worker that was granted for the resume task gives the grant back before it has run it."""
+    adv = [f for f in facts.fns.values() if f.p == R1 + 'arena::advertise_new_work']
+    strong = set(f.u for f in adv if any(o['kind'] in ('rmw', 'cas') and last_member(f, o['obj']) == 'my_mandatory_concurrency' for _, o in atomic_ops(f))
+                 or any((d or {}).get('n') == 'test_and_set' and last_member(f, node.get('obj', -1)) == 'my_mandatory_concurrency'
+                        for _, _, node, d in calls(f)))
+    if not adv or not strong:
+        raise AnalysisBroken('arena::advertise_new_work: no instantiation that can enable mandatory concurrency found (%d instantiations)' % len(adv))
+    fns = [f for f in facts.get(R1 + 'resume') if f.d.get('params') and 'suspend_point_type' in f.d['params'][0]['ty']]
+    for fn in fns:
+        cs = calls_named(fn, ('advertise_new_work',))
+        if not cs:
+            raise AnalysisBroken('r1::resume: advertise_new_work call not found')
+        weak = [c for c in cs if c[2].get('fn') not in strong]
+        rep.ob(clause, 'K10', fn, 'a resumed task is advertised with a work type that can switch mandatory concurrency on', not weak,
+               'the resume task is advertised with %s, which only wakes threads that are already in the arena: with max_allowed_parallelism == 1 '
+               'and nobody left in the arena the task stays in the resume stream for ever' %
+               ', '.join(sorted(set((c[3].get('q') or '').split('advertise_new_work')[-1] for c in weak))), key_extra='resume-adv')
+    for fn in facts.get(R1 + 'arena::out_of_work'):
+        # the predicate handed to my_mandatory_concurrency.try_clear_if
+        preds = []
+        for pos, s, node, d in calls_named(fn, ('try_clear_if',)):
+            if last_member(fn, node.get('obj', -1)) != 'my_mandatory_concurrency':
+                continue
+            for a in node.get('a', []):
+                for x in fn.subtree(a):
+                    if fn.nodes[x].get('k') == 'lambda' and facts.fns.get(fn.nodes[x].get('fn')) is not None:
+                        preds.append(facts.fns[fn.nodes[x]['fn']])
+        if not preds:
+            raise AnalysisBroken('arena::out_of_work: the predicate of my_mandatory_concurrency.try_clear_if was not found')
+        from engine.rules import Summaries
+        summ = Summaries(facts, max_depth=3)
+
+        def reads_resume_stream(g, pos, e):
+            return isinstance(e, int) and g.nodes[e].get('k') == 'call' and last_member(g, g.nodes[e].get('obj', -1)) == 'my_resume_task_stream'
+        ok = all(summ.may(g, 'reads-resume-stream', reads_resume_stream) for g in preds)
+        rep.ob(clause, 'K7', fn, 'mandatory concurrency is switched off only when the resume stream is empty too', ok,
+               'the predicate looks at the enqueued tasks only: the worker granted for a resumed task gives its grant back while the task '
+               'is still in the resume stream', key_extra='mandatory-off')
 
 
 def d3_actions(facts, rep):
